@@ -275,6 +275,9 @@ type callSpec struct {
 	id     int
 	msgs   []msgSpec
 	cancel bool // call with a context cancelled shortly after submission
+	// cancelOn (with cancel): "" = at a random moment within 1.5 ms; "pre" = the context is cancelled before the call;
+	// any other value = when the produce request held at the gate of that name has reached the broker
+	cancelOn string
 }
 
 type scenario struct {
@@ -294,6 +297,8 @@ type scenario struct {
 	jitter     bool
 	emptyCalls bool
 	jitterUs   int
+	wire       int // > 0: run over the real kafka.Transport against this many byte-level brokers
+	moves      []leaderMove
 	sinkDelay  map[string]time.Duration // event key ("PW.NewBatch", "PW.Detach:timer", "Q.Get:batch", "B.TimerFire") -> stall inside that critical section
 }
 
@@ -492,6 +497,40 @@ func (b *builder) holdRetry(n int, first string) *scenario {
 	return sc
 }
 
+// ctxHold: a synchronous caller whose first call is cancelled while its first batch is in flight (the produce request
+// is held at the broker; variant "pre": the context is cancelled before the call), then writes again to the same
+// partition; the held attempt then ends as scripted (ack, lost ack, retriable / permanent code, dropped).
+// WriteMessages must return ctx.Err() without withdrawing anything: every message of the cancelled call still gets
+// produced (`unsent` counts them), in order before the next call's messages, with the scripted completion.
+func (b *builder) ctxHold(i int) *scenario {
+	r := b.r
+	sc := &scenario{name: "ctxhold" + strconv.Itoa(i), bs: 1 + i%3, bb: 1 << 20, ma: 2 + i%2, async: false, compl: i%2 == 0, wtopic: "t",
+		timeout: 2 * time.Millisecond, nparts: map[string]int{"t": 1 + i%2}, faults: map[tpKey][]fault{}, closeAt: -1, special: "ctxhold"}
+	b.nextC++
+	c1 := callSpec{id: b.nextC, cancel: true, cancelOn: "p1"}
+	if i%4 == 3 {
+		c1.cancelOn = "pre"
+	}
+	c1.msgs = append(c1.msgs, b.mkMsg(45, "", 0, false))
+	for k := 0; k < r.Intn(4); k++ {
+		c1.msgs = append(c1.msgs, b.mkMsg(40+r.Intn(10), "", r.Intn(sc.nparts["t"]), false))
+	}
+	b.nextC++
+	c2 := callSpec{id: b.nextC}
+	for k := 0; k < 1+r.Intn(3); k++ {
+		c2.msgs = append(c2.msgs, b.mkMsg(40+r.Intn(10), "", 0, false))
+	}
+	sc.callers = [][]callSpec{{c1, c2}}
+	if i%5 == 4 { // a second goroutine writing to the same partition meanwhile
+		b.nextC++
+		sc.callers = append(sc.callers, []callSpec{{id: b.nextC, msgs: []msgSpec{b.mkMsg(44, "", 0, false), b.mkMsg(44, "", 0, false)}}})
+	}
+	first := []fault{{kind: "ok"}, {kind: "lostack", code: 1}, {kind: "kerr", code: 6}, {kind: "kerr", code: 10}, {kind: "drop", code: 2}, {kind: "lostack", code: 0}}[i%6]
+	first.gate = "p1"
+	sc.faults[tpKey{"t", 0}] = []fault{first, {kind: "ok"}, {kind: "ok"}}
+	return sc
+}
+
 // tinyTimeout: BatchTimeout of microseconds with BatchSize 2 and odd message counts, while every batch creation is
 // stalled inside the partition mutex: the linger timer of a batch expires while writeMessages fills and queues it and
 // opens the next batch, so the timer branch of awaitBatch runs for a batch that is no longer attached
@@ -623,6 +662,71 @@ func isTemporary(c int16) bool {
 	return false
 }
 
+// wire: the Writer over its real Transport against byte-level brokers; partition leaders move while batches are in
+// flight (the old leader answers NOT_LEADER_FOR_PARTITION until the Transport's metadata refresh routes the retries to
+// the new one), plus the usual fault script on the leaders.
+func (b *builder) wireScenario(i int) *scenario {
+	r := b.r
+	sc := &scenario{name: "wire" + strconv.Itoa(i), bs: 1 + r.Intn(3), bb: 1 << 20, ma: 6, async: i%3 == 2, compl: true, wtopic: "t",
+		timeout: time.Duration(1+r.Intn(3)) * time.Millisecond, nparts: map[string]int{"t": 1 + r.Intn(3)}, faults: map[tpKey][]fault{}, closeAt: -1,
+		wire: 2 + r.Intn(2), jitter: true, jitterUs: 800}
+	if i%4 == 3 {
+		sc.wtopic = ""
+		sc.nparts = map[string]int{"a": 1 + r.Intn(2), "b": 1 + r.Intn(2)}
+	}
+	var topics []string
+	for t := range sc.nparts {
+		topics = append(topics, t)
+	}
+	sort.Strings(topics)
+	for c := 0; c < 2+r.Intn(2); c++ {
+		var calls []callSpec
+		for j := 0; j < 3+r.Intn(3); j++ {
+			b.nextC++
+			cs := callSpec{id: b.nextC}
+			for k := 0; k < 1+r.Intn(3); k++ {
+				tname := topics[r.Intn(len(topics))]
+				topic := ""
+				if sc.wtopic == "" {
+					topic = tname
+				}
+				cs.msgs = append(cs.msgs, b.mkMsg(40+r.Intn(20), topic, r.Intn(sc.nparts[tname]), r.Intn(6) == 0))
+			}
+			calls = append(calls, cs)
+		}
+		sc.callers = append(sc.callers, calls)
+	}
+	if i%5 == 4 {
+		sc.closeAt = time.Duration(500+r.Intn(4000)) * time.Microsecond // Close while requests are on the wire
+	}
+	// leader moves after a few produce requests, on random partitions
+	nm := 1 + r.Intn(3)
+	for k := 0; k < nm; k++ {
+		tname := topics[r.Intn(len(topics))]
+		sc.moves = append(sc.moves, leaderMove{after: 1 + r.Intn(8), topic: tname, part: r.Intn(sc.nparts[tname]), bounce: i%2 == 1 && k == 0})
+	}
+	// a few faults on the leaders (acknowledgement lost = connection dies after the append; temporary / permanent codes)
+	for _, t := range topics {
+		for p := 0; p < sc.nparts[t]; p++ {
+			var q []fault
+			for k := 0; k < r.Intn(4); k++ {
+				switch x := r.Intn(10); {
+				case x < 6:
+					q = append(q, fault{kind: "ok"})
+				case x < 8:
+					q = append(q, fault{kind: "kerr", code: temporaryCodes[r.Intn(len(temporaryCodes))]})
+				case x < 9:
+					q = append(q, fault{kind: "kerr", code: permanentCodes[r.Intn(len(permanentCodes))], msg: true})
+				default:
+					q = append(q, fault{kind: "lostack"})
+				}
+			}
+			sc.faults[tpKey{t, p}] = q
+		}
+	}
+	return sc
+}
+
 // ---------------------------------------------------------------- running one scenario
 
 type result struct {
@@ -664,6 +768,20 @@ func run(sc *scenario, out *bufio.Writer) {
 	}
 	w.Compression = kafka.Compression(opt % 5)
 	f.wantAcks, f.wantAttrs = int16(w.RequiredAcks), int16(w.Compression)
+	var wc *wireCluster
+	if sc.wire > 0 {
+		wc = newWireCluster(f, sc.wire, sc.nparts, append([]leaderMove(nil), sc.moves...))
+		tr := &kafka.Transport{Dial: wc.Dial, MetadataTTL: 2 * time.Millisecond, IdleTimeout: time.Second, DialTimeout: time.Second}
+		w.Transport, w.Addr = tr, wc.bootAddr()
+		w.WriteBackoffMin, w.WriteBackoffMax = 2*time.Millisecond, 6*time.Millisecond
+		defer func() {
+			tr.CloseIdleConnections()
+			wc.close()
+			wireObs.scenarios++
+			wireObs.misrouted += wc.misrouted
+			wireObs.produce += wc.nprod
+		}()
+	}
 	if sc.compl {
 		w.Completion = func(msgs []kafka.Message, err error) {
 			cbmu.Lock()
@@ -676,20 +794,43 @@ func run(sc *scenario, out *bufio.Writer) {
 	kafka.VerifStart()
 	var tmu sync.Mutex
 	born := map[string]time.Time{}
+	bornLower := map[string]time.Time{}
+	var sectionTime time.Time
+	earlyTimers := 0
 	var dumpMu sync.Mutex
 	var dump func(why string) // set below, once the calls exist
 	completed := map[string]bool{}
 	kafka.VerifSetSink(func(e kafka.VerifEvent) {
+		now := time.Now()
 		switch e.Kind {
+		case "W.Batch", "W.NewPW", "PW.Add":
+			// events of the batchMessages critical section: emitted by the goroutine that holds w.mutex, so the time
+			// taken here (in that goroutine, before it goes on) is EARLIER than the creation of any batch it opens next
+			tmu.Lock()
+			sectionTime = now
+			tmu.Unlock()
+		case "PW.Detach":
+			if e.Args[2] == "full" || e.Args[2] == "nofit" {
+				tmu.Lock()
+				sectionTime = now
+				tmu.Unlock()
+			}
 		case "PW.NewBatch":
 			tmu.Lock()
-			born[e.Args[1]] = time.Now()
+			born[e.Args[1]] = now
+			bornLower[e.Args[1]] = sectionTime
+			sectionTime = now
 			delete(completed, e.Args[1])
 			tmu.Unlock()
 		case "B.TimerFire":
 			tmu.Lock()
 			if t0, ok := born[e.Args[1]]; ok {
-				timerObs.add(time.Since(t0), sc.timeout)
+				timerObs.add(now.Sub(t0), sc.timeout)
+			}
+			// sound check: even measured from a time before the timer was armed to a time after it fired, less than
+			// BatchTimeout (minus tolerance) has passed: the timer fired early, whatever the scheduler did
+			if t0, ok := bornLower[e.Args[1]]; ok && !t0.IsZero() && len(sc.sinkDelay) == 0 && now.Sub(t0) < sc.timeout-time.Millisecond {
+				earlyTimers++
 			}
 			tmu.Unlock()
 		case "B.Complete":
@@ -746,7 +887,7 @@ func run(sc *scenario, out *bufio.Writer) {
 	var wg sync.WaitGroup
 	// ---- render (also used for an emergency dump right before a crash)
 	dumped := false
-	render := func(evs []kafka.VerifEvent, unsent int, stuck bool) {
+	render := func(evs []kafka.VerifEvent, unsent int, stuck bool, stats string) {
 		rmu.Lock()
 		defer rmu.Unlock()
 		f.mu.Lock()
@@ -822,7 +963,10 @@ func run(sc *scenario, out *bufio.Writer) {
 		}
 		sb.WriteString(strings.Join(cbs, ";"))
 		cbmu.Unlock()
-		fmt.Fprintf(&sb, " | unsent %d | multi %d | stuck %d", unsent, f.multi, b2i(stuck))
+		tmu.Lock()
+		early := earlyTimers
+		tmu.Unlock()
+		fmt.Fprintf(&sb, " | unsent %d | multi %d | stuck %d | stats %s | early %d", unsent, f.multi, b2i(stuck), stats, early)
 		out.WriteString(sb.String())
 		out.WriteString("\n")
 		out.Flush()
@@ -830,7 +974,7 @@ func run(sc *scenario, out *bufio.Writer) {
 	dumpMu.Lock()
 	dump = func(why string) {
 		fmt.Fprintf(os.Stderr, "writer driver: %s in scenario %s: dumping the trace before the library panics\n", why, sc.name)
-		render(kafka.VerifSnapshot(), 0, false)
+		render(kafka.VerifSnapshot(), 0, false, "-")
 	}
 	dumpMu.Unlock()
 	if sc.special == "closewin" {
@@ -854,7 +998,17 @@ func run(sc *scenario, out *bufio.Writer) {
 				if lc.spec.cancel {
 					var cancel context.CancelFunc
 					ctx, cancel = context.WithCancel(ctx)
-					time.AfterFunc(time.Duration(jr.Intn(1500))*time.Microsecond, cancel)
+					switch lc.spec.cancelOn {
+					case "":
+						time.AfterFunc(time.Duration(jr.Intn(1500))*time.Microsecond, cancel)
+					case "pre":
+						cancel()
+					default:
+						go func(gate string) {
+							f.waitReached(gate)
+							cancel()
+						}(lc.spec.cancelOn)
+					}
 				}
 				err := w.WriteMessages(ctx, lc.msgs...)
 				rmu.Lock()
@@ -882,6 +1036,11 @@ func run(sc *scenario, out *bufio.Writer) {
 		waitTimeout(&wg, 6*time.Second) // all later (async) calls are queued behind the held batch
 		time.Sleep(2 * sc.timeout)
 		f.open("p1")
+	case sc.special == "ctxhold":
+		f.waitReached("p1") // the first batch of the call to be cancelled is at the broker (held)
+		waitEventArg("W.Return", 1, "ctx", 2*time.Second)
+		time.Sleep(1500 * time.Microsecond) // the caller's next call gets queued behind the held batch
+		f.open("p1")
 	case sc.closeAt >= 0:
 		time.Sleep(sc.closeAt)
 		go doClose()
@@ -897,28 +1056,56 @@ func run(sc *scenario, out *bufio.Writer) {
 	} else if sc.closeAt < 0 && sc.special != "closewin" {
 		deadline := time.Now().Add(sc.timeout + 2*time.Second)
 		for {
+			// accepted messages whose batch has not been attempted yet (from the hook events: PW.Add binds (call, index)
+			// to a batch, PW.Attempt names the batch) — an attempt that dies before it reaches a broker still counts
 			unsent = 0
-			okcalls := map[int]bool{}
-			rmu.Lock()
-			for _, r := range results {
-				if r.code == "ok" || strings.HasPrefix(r.code, "werr") {
-					okcalls[r.call] = true
-				}
-			}
-			rmu.Unlock()
-			f.mu.Lock()
-			for _, calls := range sc.callers {
-				for _, c := range calls {
-					if okcalls[c.id] {
-						for _, m := range c.msgs {
-							if !f.attempted[m.key] {
-								unsent++
+			okcalls := map[string]int{}
+			// a call that returned ctx.Err() from its wait for the batches (W.Return … ctx) has queued all its messages:
+			// they must get produced like those of any other call
+			ctxWaited := map[int]bool{}
+			for _, e := range kafka.VerifSnapshot() {
+				if e.Kind == "W.Return" && len(e.Args) > 1 && e.Args[1] == "ctx" {
+					for ci := range live {
+						for _, lc := range live[ci] {
+							if lc.ptr == e.Args[0] {
+								ctxWaited[lc.spec.id] = true
 							}
 						}
 					}
 				}
 			}
-			f.mu.Unlock()
+			rmu.Lock()
+			for _, r := range results {
+				if r.code == "ok" || strings.HasPrefix(r.code, "werr") || (r.code == "ctx" && ctxWaited[r.call]) {
+					for ci := range live {
+						for _, lc := range live[ci] {
+							if lc.spec.id == r.call {
+								okcalls[lc.ptr] = len(lc.msgs)
+							}
+						}
+					}
+				}
+			}
+			rmu.Unlock()
+			batchOf := map[string]string{}
+			attempted := map[string]bool{}
+			for _, e := range kafka.VerifSnapshot() {
+				switch e.Kind {
+				case "PW.Add":
+					batchOf[e.Args[2]+"/"+e.Args[3]] = e.Args[1]
+				case "PW.Attempt":
+					attempted[e.Args[1]] = true
+				case "PW.NewBatch":
+					delete(attempted, e.Args[1]) // the recorder id of a freed batch may be reused
+				}
+			}
+			for ptr, n := range okcalls {
+				for k := 0; k < n; k++ {
+					if b, ok := batchOf[ptr+"/"+strconv.Itoa(k)]; !ok || !attempted[b] {
+						unsent++
+					}
+				}
+			}
 			if unsent == 0 || time.Now().After(deadline) {
 				break
 			}
@@ -933,10 +1120,62 @@ func run(sc *scenario, out *bufio.Writer) {
 		stuck = true
 	}
 	evs := kafka.VerifStop()
+	if sc.wire > 0 {
+		// Over a real connection the broker cannot know whether its answer arrived: an acknowledgement it sent for an
+		// attempt that the client then saw fail (connection torn down under the multiplexed Transport) is an
+		// acknowledgement lost in transit.  The broker's record of such an attempt is corrected to `lost1` (and a rejection
+		// whose answer did not arrive to `lost0`).
+		keysOf := map[string][]string{} // raw batch id → keys in add order
+		keyAt := map[string]string{}
+		for ci := range live {
+			for _, lc := range live[ci] {
+				for k, m := range lc.spec.msgs {
+					keyAt[lc.ptr+"/"+strconv.Itoa(k)] = m.key
+				}
+			}
+		}
+		for idx := range evs {
+			e := &evs[idx]
+			switch e.Kind {
+			case "PW.NewBatch":
+				delete(keysOf, e.Args[1])
+			case "PW.Add":
+				keysOf[e.Args[1]] = append(keysOf[e.Args[1]], keyAt[e.Args[2]+"/"+e.Args[3]])
+			case "Br.Produce":
+				if e.Args[3] != "acked" && !strings.HasPrefix(e.Args[3], "k") {
+					continue
+				}
+				batch := ""
+				for b, ks := range keysOf {
+					if strings.Join(ks, ",") == e.Args[2] {
+						batch = b
+					}
+				}
+				for j := idx + 1; j < len(evs) && batch != ""; j++ {
+					if evs[j].Kind == "PW.AttemptDone" && evs[j].Args[1] == batch {
+						got := evs[j].Args[3]
+						if e.Args[3] == "acked" && got != "ok" {
+							e.Args[3] = "lost1"
+						} else if e.Args[3] != "acked" && got != e.Args[3] {
+							e.Args[3] = "lost0" // a rejection whose answer did not arrive: nothing applied, transport error
+						}
+						break
+					}
+				}
+			}
+		}
+	}
 	if callersStuck || unsent > 0 || stuck {
 		failedScenarios++
 	}
-	render(evs, unsent, stuck)
+	// the Writer's own accounting (WriterStats; counters are reset by the read): produce attempts, messages and bytes
+	// handed to them, failed attempts, retries, largest batch
+	stats := "-"
+	if !stuck {
+		st := w.Stats()
+		stats = fmt.Sprintf("w=%d,m=%d,b=%d,e=%d,r=%d,maxn=%d,maxb=%d", st.Writes, st.Messages, st.Bytes, st.Errors, st.Retries, st.BatchSize.Max, st.BatchBytes.Max)
+	}
+	render(evs, unsent, stuck, stats)
 }
 
 func (sc *scenario) jitterMaxUs() int {
@@ -958,6 +1197,9 @@ var timerObs = &timerStats{minSlack: time.Hour}
 // scenarios in which something hung (callers, unsent messages, Close): each costs seconds of watchdog time, so the
 // driver stops generating new scenarios after a few of them
 var failedScenarios int
+
+// observation: produce requests over the real Transport, and how many reached a broker that had lost the leadership
+var wireObs struct{ scenarios, produce, misrouted int }
 
 func (t *timerStats) add(elapsed, timeout time.Duration) {
 	t.mu.Lock()
@@ -1003,6 +1245,19 @@ func b2i(b bool) int {
 	return 0
 }
 
+func waitEventArg(kind string, idx int, val string, max time.Duration) bool {
+	deadline := time.Now().Add(max)
+	for time.Now().Before(deadline) {
+		for _, e := range kafka.VerifSnapshot() {
+			if e.Kind == kind && len(e.Args) > idx && e.Args[idx] == val {
+				return true
+			}
+		}
+		time.Sleep(200 * time.Microsecond)
+	}
+	return false
+}
+
 func waitEvent(kind string, max time.Duration) bool {
 	deadline := time.Now().Add(max)
 	for time.Now().Before(deadline) {
@@ -1036,6 +1291,11 @@ func renderEvents(evs []kafka.VerifEvent) string {
 	npw, nq, nb := 0, 0, 0
 	var parts []string
 	for _, e := range evs {
+		// only the Writer's own alphabet (a real Transport underneath records its T.* events in the same log)
+		if !(strings.HasPrefix(e.Kind, "W.") || strings.HasPrefix(e.Kind, "PW.") || strings.HasPrefix(e.Kind, "Q.") ||
+			strings.HasPrefix(e.Kind, "B.") || strings.HasPrefix(e.Kind, "Br.")) {
+			continue
+		}
 		a := append([]string(nil), e.Args...)
 		switch e.Kind {
 		case "W.Enter", "W.Empty", "W.CloseBegin", "W.CloseMarked", "W.CloseReturn":
@@ -1100,12 +1360,19 @@ func main() {
 	for i := 0; i < 10*extra && failedScenarios < 3; i++ {
 		run(b.qstall(i), out)
 	}
+	for i := 0; i < 12*extra && failedScenarios < 3; i++ {
+		run(b.wireScenario(i), out)
+	}
+	for i := 0; i < 12*extra && failedScenarios < 3; i++ {
+		run(b.ctxHold(i), out)
+	}
 	for i := 0; i < n && failedScenarios < 3; i++ {
 		run(b.random(i, thorough), out)
 	}
 	if failedScenarios >= 3 {
 		fmt.Fprintf(os.Stderr, "writer driver: %d scenarios hung (callers / unsent messages / Close); not generating further scenarios\n", failedScenarios)
 	}
+	fmt.Fprintf(out, "obs wire scenarios=%d produce_requests=%d answered_not_leader=%d\n", wireObs.scenarios, wireObs.produce, wireObs.misrouted)
 	fmt.Fprintf(out, "obs timer fires=%d earlier_than_timeout_minus_1ms=%d min(elapsed-timeout)=%s max(elapsed-timeout)=%s\n",
 		timerObs.n, timerObs.early, timerObs.minSlack, timerObs.maxLate)
 }
